@@ -11,6 +11,24 @@ use tokio::io::{AsyncReadExt, AsyncWriteExt};
 const SQL: &str = "SELECT id, text FROM tests";
 
 /// open a streaming request and collect the events that arrive until `quiet` passes without data
+/// what the open streams have received so far (counted per read; a marker cut by a read
+/// boundary is missed, so waits on these also have a time limit)
+static EOQ_SEEN: std::sync::atomic::AtomicUsize = std::sync::atomic::AtomicUsize::new(0);
+static CHG_SEEN: std::sync::atomic::AtomicUsize = std::sync::atomic::AtomicUsize::new(0);
+
+fn count_marks(chunk: &[u8]) {
+    let t = String::from_utf8_lossy(chunk);
+    EOQ_SEEN.fetch_add(t.matches("{\"eoq\"").count(), SeqCst);
+    CHG_SEEN.fetch_add(t.matches("{\"change\"").count(), SeqCst);
+}
+
+async fn wait_seen(c: &std::sync::atomic::AtomicUsize, n: usize, ms: u64) {
+    let t0 = std::time::Instant::now();
+    while c.load(SeqCst) < n && t0.elapsed() < Duration::from_millis(ms) {
+        tokio::time::sleep(Duration::from_millis(50)).await;
+    }
+}
+
 async fn stream(addr: std::net::SocketAddr, method: &str, path: &str, body: &str, stop: tokio::sync::watch::Receiver<bool>) -> (u16, Option<String>, Vec<String>, bool) {
     let mut s = tokio::net::TcpStream::connect(addr).await.unwrap();
     let mut req = format!("{method} {path} HTTP/1.1\r\nHost: verif\r\nAccept: application/json\r\n");
@@ -28,7 +46,7 @@ async fn stream(addr: std::net::SocketAddr, method: &str, path: &str, body: &str
         tokio::select! {
             r = s.read(&mut chunk) => match r {
                 Ok(0) => { closed = true; break; }
-                Ok(n) => buf.extend_from_slice(&chunk[..n]),
+                Ok(n) => { count_marks(&chunk[..n]); buf.extend_from_slice(&chunk[..n]) }
                 Err(_) => { closed = true; break; }
             },
             _ = stop.changed() => {
@@ -204,6 +222,8 @@ pub fn early(t: &mut Toks) -> String {
     vh::MANUAL.store(false, SeqCst);
     ph::BCAST_DELAY_MS.store(relay, SeqCst);
     ph::TRACE.lock().unwrap().clear();
+    EOQ_SEEN.store(0, SeqCst);
+    CHG_SEEN.store(0, SeqCst);
     let out = rt.block_on(async move {
         let srv = c17::start(None).await;
         let addr = srv.addr;
@@ -214,14 +234,17 @@ pub fn early(t: &mut Toks) -> String {
         let first = tokio::spawn({ let b = body.clone(); let rx = stop_rx.clone(); async move { stream(addr, "POST", "/v1/subscriptions", &b, rx).await } });
         tokio::time::sleep(Duration::from_millis(off)).await;
         let second = tokio::spawn({ let b = body.clone(); let rx = stop_rx.clone(); async move { stream(addr, "POST", "/v1/subscriptions", &b, rx).await } });
-        // wait until both have seen an end of query (or 30 s), then produce 3 changes
+        // wait until both have seen an end of query (at least the time the schedule needs, at
+        // most 60 s more), then produce 3 changes and wait until both streams carried them
         tokio::time::sleep(Duration::from_millis(3000 + nrows / 20 + relay * (nrows + 3))).await;
+        wait_seen(&EOQ_SEEN, 2, 60_000).await;
         ph::BCAST_DELAY_MS.store(0, SeqCst);
         for i in 0..3 {
             let b = format!(r#"["INSERT INTO tests (id, text) VALUES ({}, 'late')"]"#, nrows + 1 + i);
             let _ = c17::http(addr, "POST", "/v1/transactions", &[], &b).await;
             tokio::time::sleep(Duration::from_millis(400)).await;
         }
+        wait_seen(&CHG_SEEN, 6, 30_000).await;
         tokio::time::sleep(Duration::from_millis(1500)).await;
         let _ = stop_tx.send(true);
         let mut outs = vec![];
